@@ -356,12 +356,24 @@ def run_job(job, snapshots=False):
         if job["kind"] == "order":
             d, paths = [], []   # (these rows are made for the orderer; the ordered configuration is what `annet gen` prints)
         else:
+            excl = None
+            if acl is not None:
+                # what the gen step does with the same (cached, shared) compiled ACL right before the diff: the generated configuration
+                # is filtered with the ownership check on
+                import annet.annlib.patching as _P
+                try:
+                    _P.apply_acl(RL.to_odict(RL.plain(new)), acl, exclusive=True)
+                    excl = "ok"
+                except Exception as e:
+                    excl = type(e).__name__
             d, pt = _diff_and_patch(sut.Dev(hw), old, new, acl, None, comments, ref_track=ref_track, rb=rb)
             fmt = sut.registry().match(hw).make_formatter(indent="")
             # (a command is handed to the deploy step together with its rule context, which selects %ifcontext deploy rules)
             paths = [list(p) + ["ctx=" + json.dumps(c, sort_keys=True, default=str)] if c else list(p) for p, c in fmt.cmd_paths(pt).items()]
         oc = Orderer(rb["ordering"], hw.vendor).order_config(new)
         res = ["ok", _plain_diff(d), paths, [[k, json.dumps(v)] for k, v in oc.items()]]
+        if job["kind"] == "syn" and job.get("acl"):
+            res.append("exclusive-pass:" + str(excl))
         if job["kind"] != "syn":
             # the shipped rulebook this hardware gets (rendered per model): the same in a fresh process and after any other models
             import hashlib
